@@ -252,3 +252,73 @@ M('c06-asgi-strip-slash-not-for-websocket', 'C06', 'R13', 'falcon/asgi/request.p
 # the sibling value derived from the other raw input
 M('c06-asgi-query-string-drops-question-mark', 'C06', 'R13', 'falcon/asgi/request.py',
   "        query_string = scope['query_string'].decode()\n", "        query_string = scope['query_string'].decode().lstrip('?')\n")
+
+# --------------------------------------------------------------------- R14
+# one entry per request header whatever its value (sample evaluation of the four mapping accessors)
+_WSGI_HEADERS_LOOP = """                if name.startswith('HTTP_'):
+                    # NOTE(kgriffs): Don't take the time to fix the case
+                    # since headers are supposed to be case-insensitive
+                    # anyway.
+                    headers[name[5:].replace('_', '-')] = value
+
+                elif name in WSGI_CONTENT_HEADERS:
+                    headers[name.replace('_', '-')] = value
+"""
+# the seeded over-correction: the blank-placeholder filter, meant for CONTENT_*, placed after the shared name handling
+M('c06-wsgi-headers-skip-every-blank-value', 'C06', 'R14', 'falcon/request.py', _WSGI_HEADERS_LOOP,
+  """                if name.startswith('HTTP_'):
+                    name = name[5:]
+
+                elif name not in WSGI_CONTENT_HEADERS:
+                    continue
+
+                if value:
+                    headers[name.replace('_', '-')] = value
+""")
+M('c06-wsgi-headers-continue-on-blank-value', 'C06', 'R14', 'falcon/request.py', _WSGI_HEADERS_LOOP,
+  """                if not value.strip():
+                    continue
+
+""" + _WSGI_HEADERS_LOOP)
+# the same filter on the ASGI side (comprehension form)
+M('c06-asgi-headers-filter-blank-values', 'C06', 'R14', 'falcon/asgi/request.py',
+  """                for name, value in self._asgi_headers.items()
+            }""", """                for name, value in self._asgi_headers.items()
+                if value
+            }""")
+# ... and in the mapping derived from it
+M('c06-wsgi-headers-lower-filter-blank-values', 'C06', 'R14', 'falcon/request.py',
+  "                key.lower(): value for key, value in self.headers.items()\n",
+  "                key.lower(): value for key, value in self.headers.items() if value\n")
+# a non-header environ key leaks into the mapping (prefix test without the underscore: HTTPS=on, HTTP=...)
+M('c06-wsgi-headers-prefix-without-underscore', 'C06', 'R14', 'falcon/request.py',
+  """                if name.startswith('HTTP_'):
+                    # NOTE(kgriffs): Don't take the time to fix the case""",
+  """                if name.startswith('HTTP'):
+                    # NOTE(kgriffs): Don't take the time to fix the case""")
+
+# --------------------------------------------------------------------- R15
+# scope['client'] / scope['server'] may be forward-only iterables: one memoised consumption site per request
+M('c06-asgi-remote-addr-unpacks-scope-client', 'C06', 'R15', 'falcon/asgi/request.py',
+  """        route = self.access_route
+        return route[-1]
+""", """        try:
+            client, __ = self.scope['client']
+        except KeyError:
+            client = '127.0.0.1'
+
+        return client
+""")
+M('c06-asgi-port-unpacks-scope-server', 'C06', 'R15', 'falcon/asgi/request.py',
+  """        except KeyError:
+            __, port = self._asgi_server
+
+        return port
+""", """        except KeyError:
+            __, port = self.scope['server']
+
+        return port
+""", also=('C09',))  # scope['server'] is optional: the unguarded read is also a KeyError escape (C09 R1)
+# the memoised site loses its guard: the field is consumed on every access
+M('c06-asgi-server-consumed-on-every-access', 'C06', 'R15', 'falcon/asgi/request.py',
+  "        if not self._asgi_server_cached:\n", "        if not self._asgi_server_cached or self.is_websocket:\n")
